@@ -43,13 +43,13 @@ PROPS = {
     ),
     'C12': dict(
         standin_ops=['dom.views_after_edits', 'dom.children_after_edits', 'dom.tree_atomic'],
-        verus_units=['c13_tree', 'c12_idmap', 'c12_remove'],
+        verus_units=['c13_tree', 'c12_idmap', 'c12_remove', 'c12_siblings'],
         level='proof',
         trusted_base=TRUSTED_VERUS,
         assumptions=[A4, A8, 'world model: the parent link of every item of the document is a ghost map on the receiver; value.remove_from_parent() is an assumed callee (the old parent forgets the item, its parent link becomes None; if the old parent is the receiver its own list loses the item); XmlAttributeValue::try_from accepts exactly text, character references and entity references; HasParent::ancestor is an assumed read-only callee',
                      'XmlDocument::delete_by_id and XmlAttribute::delete_by_id are not extracted (same shape as the element version)', 'c13_tree uses value.remove_from_parent() as a callee with an unconditional effect; c12_remove proves that effect for an item whose parent link names a live node that lists it (the C12 invariant at the previous step) and that the parent link always names an attribute, a document or an element is a precondition there'],
         not_decided='the tree invariant over whole edit histories (first_child/last_child/previous_sibling/next_sibling agreement, no node beneath itself, at most one document element / document type): these quantify over the live aliasing graph; only the local steps of the two primitives on elements and attributes are decided',
-        explanation='the local steps that keep child lists and parent links in agreement: XmlElement::insert_by_id, XmlDocument::insert_by_id (with its nested helper add_or_insert) and XmlAttribute::insert_by_id either refuse and change nothing (child list, parent links) or leave the value listed exactly once under this parent with its parent link pointing here; XmlElement::delete_by_id removes exactly that child and clears its parent link, and changes nothing for an unknown id; the trait defaults append / insert_before leave the id of the inserted node resolving to the very handle the child list now owns (Context.id_map), which is what parent_node() of its children goes through; Context::node resolves a registered id for as long as the item itself is alive (unit c12_idmap, over uninterpreted ownership predicates); XmlItem::remove_from_parent (unit c12_remove, over an explicit world of parent links and child lists) takes a node that its live parent lists out of that list and clears its parent link, touches no other list, and changes nothing for a node without a parent',
+        explanation='the local steps that keep child lists and parent links in agreement: XmlElement::insert_by_id, XmlDocument::insert_by_id (with its nested helper add_or_insert) and XmlAttribute::insert_by_id either refuse and change nothing (child list, parent links) or leave the value listed exactly once under this parent with its parent link pointing here; XmlElement::delete_by_id removes exactly that child and clears its parent link, and changes nothing for an unknown id; the trait defaults append / insert_before leave the id of the inserted node resolving to the very handle the child list now owns (Context.id_map), which is what parent_node() of its children goes through; Context::node resolves a registered id for as long as the item itself is alive (unit c12_idmap, over uninterpreted ownership predicates); XmlItem::remove_from_parent (unit c12_remove, over an explicit world of parent links and child lists) takes a node that its live parent lists out of that list and clears its parent link, touches no other list, and changes nothing for a node without a parent; dom XmlNode::previous_sibling_child / next_sibling_child (unit c12_siblings) answer the entry before / after the node in the parent\'s child list, by identity, for every child list of pairwise different items, whatever the order keys are',
     ),
     'C10': dict(
         standin_ops=['ctx.script', 'info.namespace_names', 'xpath.query.names'],
